@@ -30,6 +30,9 @@ EXTRA = [
     ['2019', '1999', '2019abcd', 'abcd1999x'],
     ['<3you', 'no.1', '#1abc', ';p;p'],
     ['1qaz', '1qaz2wsx', 'qwer1234', 'asdfasdf1'],
+    # e-mail / website sections that are NOT the last section of the password
+    ['bob@gmail.com123', 'carol@yahoo.com!', 'www.site.com99', 'pass12', 'pass12', '12www.site.org', 'x1bob@gmail.com'],
+    ['al@a.com1', 'http://www.b.net/x 1', 'letmein'],
 ]
 COVERAGES = [0.6, 1.0, 0.0, 0.25, 0.5]
 
